@@ -208,7 +208,7 @@ func checkC08(c *Ctx) {
 			switch {
 			case an.CalleeIs(cc, G, "(*conn).close"):
 				nOnly++
-				R.Check(ci == m.closeCall, "C08-only", fname(f)+": calls (*conn).close", c.pos(ci), "the teardown's single call", "(*conn).close is called outside the connection teardown: the connection would be closed twice or before its handlers end")
+				R.Check(ci == m.closeCall || (m.closeHelper != nil && f == m.closeHelper), "C08-only", fname(f)+": calls (*conn).close", c.pos(ci), "the teardown's single call", "(*conn).close is called outside the connection teardown: the connection would be closed twice or before its handlers end")
 			case isCloseOnNetConn(cc):
 				nOnly++
 				R.Check(f == m.closeFn, "C08-only", fname(f)+": net.Conn.Close", c.pos(ci), "only (*conn).close closes the socket", "a net.Conn is closed outside (*conn).close")
@@ -654,6 +654,39 @@ func checkC09(c *Ctx) {
 			continue
 		}
 		arg := an.StripX(ci.Common().Args[0])
+		// the ID handed back by a helper of the teardown (`id, err := s.closeConn(conn, done)`): every return of the
+		// helper must yield the connID of the conn it was given
+		if ex, isEx := arg.(*ssa.Extract); isEx {
+			if hc, isCall := ex.Tuple.(*ssa.Call); isCall {
+				if hf := an.StaticCallee(hc.Common()); hf != nil && an.InModule(hf) && len(hf.Blocks) > 0 {
+					var connArg ssa.Value
+					all := true
+					for _, ret := range an.Returns(hf) {
+						res := an.ReturnResults(ret)
+						if ex.Index >= len(res) {
+							all = false
+							continue
+						}
+						b, okF := fieldLoad(res[ex.Index], G, "conn", "connID")
+						p, isP := an.Strip(b).(*ssa.Parameter)
+						if !okF || !isP {
+							all = false
+							continue
+						}
+						for i, hp := range hf.Params {
+							if hp == p && i < len(hc.Common().Args) {
+								connArg = hc.Common().Args[i]
+							}
+						}
+					}
+					if all && connArg != nil {
+						if cex, isC := an.StripX(connArg).(*ssa.Extract); isC && cex.Tuple == ssa.Value(m.newConn) && cex.Index == 0 {
+							arg = an.StripX(idArg)
+						}
+					}
+				}
+			}
+		}
 		// conn.connID of the conn built in this iteration: written once, by newConn, from its connID parameter (C09-immutable)
 		if base, ok := fieldLoad(arg, G, "conn", "connID"); ok {
 			if ex, isEx := an.StripX(base).(*ssa.Extract); isEx && ex.Tuple == ssa.Value(m.newConn) && ex.Index == 0 {
@@ -847,6 +880,24 @@ func checkC12(c *Ctx) {
 			}
 			if ok {
 				R.OK("C12-done-last", key, c.pos(d), "Done is the last effect of the teardown, after conn.close() (Wait+Close) and the OnClose callback, on every path")
+			}
+		case d.Parent().Parent() == m.teardown && an.ClosureSite(d.Parent()) != nil && func() bool {
+			// Done inside a function literal that the teardown defers at its start: `defer func() { s.connWg.Done(); log }()`
+			for _, tc := range an.Calls(m.teardown) {
+				if dd, isD := tc.(*ssa.Defer); isD && an.StaticCallee(dd.Common()) == d.Parent() && an.InstrDominates(dd, m.closeCall) {
+					return isCall(d)
+				}
+			}
+			return false
+		}():
+			R.OK("C12-done-last", key, c.pos(d), "in a function the teardown defers at its start: runs after conn.close() and OnClose whichever way the teardown returns")
+		case d.Parent() == m.teardown && isDefer(d) && m.teardown != m.connFn:
+			// `defer s.connWg.Done()` at the top of a named teardown function: it runs when the teardown returns, i.e.
+			// after conn.close() and the OnClose callback on every path (including an early return)
+			if an.InstrDominates(d, m.closeCall) {
+				R.OK("C12-done-last", key, c.pos(d), "deferred at the start of the teardown: runs after conn.close() and OnClose whichever way the teardown returns")
+			} else {
+				R.Fail("C12-done-last", key, c.pos(d), "the deferred Done is registered only on some paths of the teardown")
 			}
 		case d.Parent() == m.connFn && isDefer(d) && m.tdDefer != nil:
 			// separate defer: must be registered before the teardown defer (runs after it)
@@ -1072,7 +1123,7 @@ func checkC12(c *Ctx) {
 		checkC08(tmp)
 		n := 0
 		for _, o := range tmp.R.Obls {
-			if o.Rule == "C08-paired" || (o.Rule == "C08-sequence" && strings.Contains(o.Construct, "Wait")) {
+			if o.Rule == "C08-paired" || (o.Rule == "C08-sequence" && (strings.Contains(o.Construct, "Wait") || strings.Contains(o.Construct, "onCloseHandler"))) {
 				n++
 				switch o.Status {
 				case report.Discharged:
